@@ -1327,6 +1327,8 @@ static void initializer2(Token **rest, Token *tok, Initializer *init) {
     // An initializer for a scalar variable can be surrounded by
     // braces. E.g. `int x = {3};`. Handle that case.
     initializer2(&tok, tok->next, init);
+    if (equal(tok, ",") && equal(tok->next, "}"))
+      tok = tok->next;
     *rest = skip(tok, "}");
     return;
   }
